@@ -12,7 +12,7 @@ LEVEL = 'model_checking'
 RULE = ('every ordered event tree with <= N nodes (fan-out <= 2, depth <= 3 below the root) x per non-root node '
         '(edge kind: fired by the plain handler | fired by a later generator step | called with `yield self.call()` | fired after such a call returned) x (mark: none | cancelled right after '
         'firing (leaves) | stopped by its first handler | raising | without any handler (leaves)) x root mark x variants (nested complete-requesting '
-        'descendant, two simultaneous roots); non-trivial = tree with >= 2 levels or any mark/generator edge; '
+        'descendant, two simultaneous roots); trees of <= 3 nodes also with declared event classes deriving from a warm base class; non-trivial = tree with >= 2 levels or any mark/generator edge; '
         'distinct = distinct program')
 ASSUMPTIONS = [
     'driver: real Manager.run() in the checking thread, root event fired from a generate_events handler',
@@ -194,8 +194,9 @@ def build(program):
     return handlers
 
 
-def execute(program):
+def execute(program, style='create'):
     par, edges, marks, variant = program
+    ghost.World.event_style = style     # 'classes': declared event classes deriving from a warm base class (see mc/ghost.py)
 
     def go(w):
         w.fire('n0', {'complete': True})
@@ -211,6 +212,8 @@ def execute(program):
         w = ghost.RunWorld(build(program), script=script, horizon=(60 if variant != 'again' else 120) * big)
     finally:
         ghost.World.observe_names = None
+        ghost.World.event_style = 'create'
+    w.event_style = style
     w.lazy = True             # once the roots are fired the library alone decides how long the loop idles ...
     w.use_idle_double()       # ... over a double of the fall-back's wait: an unbounded wait with tasks pending is a hang
     res = w.run()
@@ -293,6 +296,12 @@ def _work(part, nparts, payload):
         st.executions += 1
         st.transitions += len(w.log)
         bad = judge(program, w, res)
+        if len(program[0]) <= 3:
+            w2, res2 = execute(program, 'classes')
+            st.executions += 1
+            st.counters['programs_also_run_with_declared_event_classes'] += 1
+            bad = bad + [(k + ':event-classes', t + ' [events are instances of declared classes with a common, warm base class]')
+                         for k, t in judge(program, w2, res2) if (k, t) not in bad]
         st.outcome(tuple(x for x in w.log if x[0] in ('obs', 'enter', 'step')))
         if len(program[0]) > 2 or any(m != 'none' for m in program[2]) or 'gen' in program[1]:
             st.interesting(program)
@@ -314,7 +323,7 @@ def _work(part, nparts, payload):
 
 
 def run(tier, seed, workers):
-    total = sum(1 for _ in programs(tier)) + sum(1 for _ in programs_call(tier)) + sum(1 for _ in programs_side(tier)) + sum(1 for _ in programs_scale(tier))
+    total = sum(2 if len(p[0]) <= 3 else 1 for p in itertools.chain(programs(tier), programs_call(tier), programs_side(tier), programs_scale(tier)))
     st = core.parallel(_work, (tier, seed), workers, nparts=workers * 8)
     probe = ((None, 0, 1), (None, 'gen', 'plain'), ('none', 'none', 'stop'), 'single')
     if execute(probe)[0].log != execute(probe)[0].log:
@@ -333,6 +342,9 @@ def replay(wj):
     program = from_json(wj)
     w, res = execute(program)
     bad = judge(program, w, res)
+    if not bad and len(program[0]) <= 3:
+        w, res = execute(program, 'classes')
+        bad = [(k + ':event-classes', t) for k, t in judge(program, w, res)]
     text = 'program %r\nrun() -> %r\nlog:\n  %s\n' % (pj(program), res, '\n  '.join(map(repr, w.log)))
     text += ''.join('VIOLATED %s: %s\n' % b for b in bad) or 'all clauses hold\n'
     return (not bad), text
